@@ -57,7 +57,7 @@ type world struct {
 	name     map[dkey]string // tracked denom strings
 	byName   map[string]dkey
 	nSubs    int
-	supply0  math.Int          // native supply after genesis
+	supply0  math.Int           // native supply after genesis
 	nativeMD banktypes.Metadata // native metadata as genesis wrote it
 }
 
